@@ -332,7 +332,8 @@ type handlerWriter struct {
 }
 
 func (s *handlerWriter) Write(buf []byte) (n int, err error) {
-	if s.lvl >= s.l.Level() {
+	n = len(buf) // a message the logger does not admit is dropped, not a short write
+	if s.l.EnabledContext(context.Background(), s.lvl) {
 		var pc uintptr
 		if s.capturePC {
 			// skip [runtime.Callers, s.Write, Logger.Output, log.Print]
